@@ -159,7 +159,7 @@ def show(t, depth=0):
             return f"({show(t[2])} mod 2^{t[1]})"
         if h in ('add', 'and', 'or', 'xor', 'eq', 'ne', 'sub', 'shl', 'shr'):
             sym = {'add': '+', 'and': '&', 'or': '|', 'xor': '^', 'eq': '==', 'ne': '!=', 'sub': '-', 'shl': '<<', 'shr': '>>'}[h]
-            return f"({show(t[1])} {sym} {show(t[2])})"
+            return '(' + f" {sym} ".join(show(x) for x in t[1:]) + ')'
         if h == 'ite':
             return f"({show(t[1])} ? {show(t[2])} : {show(t[3])})"
         if h == 'M':
@@ -944,3 +944,106 @@ def run_rtl(repo, cube, ctx):
             fin['notes'] = (fin['notes'] or ()) + (f"{sent} {slot} requests but {got} responses consumed",)
     fin['_blocks'] = ev.blocks_run
     return fin
+
+
+# ---------------------------------------------------------------------------
+# comparison machinery
+def diff_eff(want, got):
+    out = []
+    for k in SLOTS:
+        if want.get(k) != got.get(k):
+            out.append((k, want.get(k), got.get(k)))
+    return out
+
+
+def compare_case(cube, run_want, run_got, stats):
+    """refine `cube` until both evaluations are uniform on every part; returns [(part, diffs)]"""
+    work, out = [cube], []
+    while work:
+        c = work.pop()
+        a = explore(c, run_want)
+        b = explore(c, run_got)
+        stats[0] += len(a) + len(b)
+        ca, cb = {x[0] for x in a}, {x[0] for x in b}
+        if ca != {c} or cb != {c}:
+            parts = cb if len(cb) > 1 else ca
+            work.extend(sorted(parts))
+            continue
+        ea = merge_paths([(tr, e) for _, tr, e in a])
+        eb = merge_paths([(tr, e) for _, tr, e in b])
+        out.append((c, diff_eff(ea, eb)))
+    return out
+
+
+def describe(diffs):
+    k, want, got = diffs[0]
+    return (f"{SLOT_TEXT[k]} differs: the ISA gives {show(want) if want is not None else 'none'}, "
+            f"the model gives {show(got) if got is not None else 'none'}"
+            + (f" (+{len(diffs) - 1} more differing slots)" if len(diffs) > 1 else ''))
+
+
+def spec_cases(spec):
+    """all (instruction, case tag, cube) on which the document defines the behaviour + the no-op word"""
+    out = []
+    for name in spec.insts:
+        for tag, c in spec.cases(name):
+            out.append((name, tag, c))
+    return out
+
+
+def nop_cube(spec):
+    """addi x0, x0, 0: the addi word whose free fields are all zero"""
+    c = spec.cube('addi')
+    return Cube((1 << 32) - 1, c.match)
+
+
+def semantics_rule(repo, rid, clause, run_model, where_mod, where_fn, floor):
+    r = RuleResult(rid, clause)
+    spec = doc_spec(repo)
+    stats = [0]
+    mod = repo.mod(where_mod)
+    cases = spec_cases(spec)
+    if 'addi' in spec.insts:
+        cases.append(('addi', ' (the no-op word addi x0,x0,0)', nop_cube(spec)))
+    for name, tag, cube in cases:
+        parts = compare_case(cube, lambda cu, ctx: spec.run(repo, name, cu, ctx),
+                             lambda cu, ctx: run_model(repo, cu, ctx), stats)
+        bad = [(c, d) for c, d in parts if d]
+        cons = f"{name}{tag}: {spec.insts[name]['semantics']}"
+        if bad:
+            c, d = bad[0]
+            r.bad(mod, where_fn, cons,
+                  f"instruction words {c}: {describe(d)}. Every program executing such an instruction computes a "
+                  f"different architectural state than the ISA interpreter.")
+        else:
+            r.ok(mod, where_fn, cons, note=f"{len(parts)} uniform sub-cubes")
+    r.evaluations = stats[0]
+    r.require_floor(floor)
+    return r
+
+
+def rule_fl(repo):
+    return semantics_rule(repo, 'R-C20-fl',
+                          "ProcFL: decode (TinyRV0Inst.name) + execute branch of every instruction denotes the ISA semantics "
+                          "(same operation, operands, immediate bits, destination, memory/manager/accelerator access, next PC)",
+                          run_fl, FL, 'ProcFL.construct.up_ProcFL', 13)
+
+
+def rule_cl(repo):
+    return semantics_rule(repo, 'R-C20-cl',
+                          "ProcCL: one instruction flowing through fetch, execute and write-back denotes the ISA semantics",
+                          run_cl, CL, 'ProcCL.construct', 13)
+
+
+def rule_rtl(repo):
+    r = semantics_rule(repo, 'R-C20-rtl',
+                       "ProcRTL: decoder output -> control-table row -> datapath (immediate generator, operand muxes, ALU "
+                       "function table, write-back mux, memory/manager/accelerator ports) composed through the wiring of "
+                       "ProcRTL denotes the ISA semantics, in the steady-flow abstraction (no stall, no squash, no bypass)",
+                       run_rtl, CTRL, 'ProcCtrl.construct.comb_control_table_D', 13)
+    st = rtl_setup(repo)
+    r.observations.append(f"steady-flow abstraction: {len(st.over)} boundary/bookkeeping signals fixed, operand bypass "
+                          f"muxes treated as register reads: {', '.join(st.bypass_muxes)}")
+    if len(st.bypass_muxes) < 2:
+        raise AnalysisError("R-C20-rtl: the two operand paths from the register file were not found")
+    return r
